@@ -267,6 +267,6 @@ example : ∃ e s', ({} : Sess).buildSource 5 .eval [.lit (.int 1), .word "foo",
     rejected in turn, and the REPL aborts -/
 example : ((later 5 [.source .compile [.lit (.int 1)], .source .compile [.word "foo"], .abort] ({} : Sess)).map (·.1)).isSome = true := by
   simp [later, Sess.buildSource, Sess.build1, tokens, Sess.visible, Sess.visLen, CState.topFun, Sess.ofC, buildWord, Sess.toC, cerr,
-    andRun, Sess.metaRun, Sess.contextOpen, Sess.emit, Sess.contextClose, Sess.hasPendingFlow, Sess.fromC]
+    andRun, Sess.metaRun, Sess.contextOpen, Sess.emit, Sess.contextClose, Sess.hasPendingFlow, Sess.fromC, forgetBuildLog]
 
 end Xeh.C10
